@@ -7,7 +7,8 @@ from harness import comp_search as S
 from vlib import core
 
 PROPS = "Props/C18.v"
-THEOREMS = ["C18_es_returns_min", "C18_es_result_is_survivor", "C18_survivors_in_box", "C18_es_stuck_cases",
+THEOREMS = ["C18_es_returns_min", "C18_es_result_is_survivor", "C18_es_all_filtered_is_failed_search",
+            "C18_es_later_empty_generation", "C18_survivors_in_box",
             "C18_search_argmin", "C18_one_eval", "C18_mask_valid", "C18_mask_index_safe",
             "C18_mask_fuel_suffices", "C18_hedge_distribution"]
 LEVEL = "proof"
@@ -30,7 +31,8 @@ TRUSTED = [
 ]
 ASSUMPTIONS = [
     "acquisition values are not NaN (cases with NaN are counted and skipped)",
-    "every generation of the evolution strategy keeps at least one survivor; otherwise `us[0]` raises IndexError (es_search.py l.210, also after a LATER empty generation because l.166 wipes z_candidates) — the crash is property C09's, here it is modelled (None), exemplified (C18_es_stuck_cases) and counted",
+    "C18_es_returns_min: every generation of the evolution strategy keeps at least one survivor.  If ALL generations are empty the strategy returns the empty set and nothing is evaluated (C18_es_all_filtered_is_failed_search).  If only a LATER generation is empty the code also returns the empty set although survivors exist (es_search.py l.166 wipes z_candidates) — modelled, proved as the observation C18_es_later_empty_generation, counted as 'dropped' in the coverage, not gated on",
+    "n_search_iter >= 1",
     "lamb >= 1 and, for the mask theorem, mu = us.shape[0] >= 1",
 ]
 
@@ -112,7 +114,7 @@ def part_runs(ctx, broken):
     if es_meta:
         c = es_meta[len(es_meta) // 2][2]
         ctx.sample(dict(part="es", cls=c["cls"], lamb=c["lamb"], generations=[g[1].shape[0] for g in c["gens"]],
-                        returned=None if c["ret"] is None else [c["ret"][0].tolist(), c["ret"][1]]))
+                        returned=c["ret"] if (c["ret"] is None or isinstance(c["ret"], str)) else [c["ret"][0].tolist(), c["ret"][1]]))
     ctx.oblige("monitor:es", "monitor", not kinds_es.get("bad") and not kinds_es.get("unobserved"), json.dumps(kinds_es))
     ctx.oblige("monitor:search_step", "monitor", not kinds_st.get("bad"), json.dumps(kinds_st))
     enough = kinds_es.get("ok", 0) >= 20 and kinds_st.get("ok", 0) >= 20
@@ -124,7 +126,7 @@ def part_runs(ctx, broken):
         if bad1:
             cfg, k, c = es_meta[bad1[0]]
             broken.append(("correspondence:es_loop", f"model and {c['cls']}.__call__ differ: run {cfg}, ES call {k}, "
-                           f"generations {[g[1].shape[0] for g in c['gens']]}, returned {None if c['ret'] is None else c['ret'][1]} exc={c['exc']}"))
+                           f"generations {[g[1].shape[0] for g in c['gens']]}, returned {c['ret'] if (c['ret'] is None or isinstance(c['ret'], str)) else c['ret'][1]} exc={c['exc']}"))
         else:
             broken.append(("correspondence:es_loop", "ES cases did not compile: " + log1[-300:]))
     ok2, bad2, log2 = core.run_cases("C18step", S.REQUIRES, S.STEP_TY, S.STEP_OK, st_cases, shard=200)
@@ -178,8 +180,8 @@ def tie(ctx, broken):
 
 def search(ctx, broken):
     """Something is broken and the monitors above found no concrete input: look further afield."""
-    for extra in range(1, 4):
-        for cfg in S.panel(False, ctx.seed + 17 * extra):
+    for extra in range(1, 3):
+        for cfg in S.panel(True, ctx.seed + 17 * extra):
             out = S.run_bads(cfg)
             for k, c in enumerate(out["es_calls"]):
                 kind, msg = S.es_monitor(c)
@@ -193,7 +195,7 @@ def search(ctx, broken):
                                 dict(kind="run", cfg=cfg, step_index=k))
                     return True
     for gamma, n in HEDGE_CFGS:
-        for r in S.hedge_drive(ctx.rng, 2000, gamma, n):
+        for r in S.hedge_drive(ctx.rng, 300, gamma, n):
             msg = S.hedge_monitor(r)
             if msg:
                 ctx.violate("hedge-distribution", msg, dict(kind="hedge", rec={k: r[k] for k in ("g", "gamma", "beta", "seed", "n", "D")}))
